@@ -166,7 +166,7 @@ manifest = dict(version=1,
     setup_cmd="./setup.sh",
     hooks=dict(guard="cargo feature verif_hooks", enable="harness/Cargo.toml: lockable = { path = \"/repo\", features = [\"verif_hooks\", \"slow_assertions\"] }",
                baseline_off_cmd="cd /repo && cargo nextest run --workspace --no-fail-fast --tool-config-file pb:/w/lib/nextest.toml --profile pb --test-threads 8 --offline",
-               source_commits=["700e6dc", "32e6044", "64331bd", "02527b8"], add_only=True),
+               source_commits=["700e6dc", "32e6044", "64331bd", "02527b8", "47b7773"], add_only=True),
     engines=[dict(name="coq-model+cosim", path="/verif/coq, /verif/ocaml, /verif/harness, /verif/check", serves_properties=sorted(P.keys()),
                   kind_free_text="Coq 8.16 model + theorems; extracted OCaml model co-simulated against traces of the real crate produced by a deterministic-scheduler harness")],
     checks=checks,
